@@ -4,20 +4,46 @@
   FULL STATEMENT (not proved for the whole machine): for every fuel, the probabilities of the
   yielded sequence are non-increasing (heap search), the bucket tuples non-decreasing (bucket
   search); every strictly more probable program was yielded before.
+  It is FALSE on recursive grammars (finding_C03_HS_reentrant).
 
-  Proved here (the ingredients of the blueprint DESIGN B.2 (I4)), for all inputs:
-    * on an array satisfying the heap invariant of heapq the root — what `heappop` returns — is a
-      minimum (C03_HS_root_min), for any order whose `not <` is transitive;
-    * the two orders used have that property: reversed `<` on probabilities (C03_HS_prob_order)
-      and `Bucket.__lt__` (irreflexive, asymmetric, transitive: C03_HS_bucket_*);
-    * monotonicity: replacing an argument by a less probable one does not increase the product
-      (C03_HS_prob_mono); `+=` of buckets is strictly monotone (C03_HS_bucket_add_mono).
-  NOT proved: that `heappush`/`heappop` re-establish the heap invariant, and the composition into
-  "the popped sequence is sorted"; both are checked on every generated case (exact Fractions).
+  Proved here, for all inputs:
+    * heapq (literal port of `_siftdown` / `_siftup`) RE-ESTABLISHES the heap invariant on push and
+      pop and pop returns a minimum, for every strict weak order (`<` asymmetric, `not <`
+      transitive; both are needed: the sift loops swap on `<` only): C03_HS_heappush_inv,
+      C03_HS_heappop_inv; heapsort corollary C03_HS_heap_sorted; on a valid heap the root is a
+      minimum (C03_HS_root_min);
+    * the two orders used are strict weak orders: reversed `<` on probabilities
+      (C03_HS_prob_weakOrder), `Bucket.__lt__` on tuples of one size (C03_HS_bucket_weakOrder);
+    * every heap of the machine is valid in every reachable state, so every pop returns a most
+      probable element of its heap (C03_HS_heaps_valid, C03_HS_pop_max) — any grammar, any filter;
+    * monotonicity: replacing an argument by a less probable one does not increase the probability
+      (C03_HS_prob_mono; whole programs: HS.prob_set_le); `+=` of buckets is strictly monotone;
+    * tie-breaking: `heappush` replaces the root only by a strictly smaller element
+      (C03_HS_heappush_root), the same choice as the strict `<` of `__compute_max_prio__`;
+    * BEST-FIRST ORDER on ACYCLIC context-free grammars (heap search, threshold 0, no filter, no
+      empty row): the yielded probabilities are non-increasing, for every fuel and number of steps —
+      C03_HS_sorted.  Ingredients: the max-priority phase leaves tables in sync and `__init_heap__`
+      builds a state whose initial programs use the first pops of their arguments (C03_HS_base), the
+      first queries and every later `query` keep the order invariant `HS.OInv` = DESIGN B.2 (I1), (I4),
+      under precondition (I5) (C03_HS_order_step); C03_HS_sorted_partial is the same from a hypothesis
+      on the state produced by the prologue (any threshold).
+    * for complete runs (the generator has stopped; it does: C02_HS_full) every strictly more probable
+      member was yielded before (C03_HS_more_probable_before).
+  NOT proved: the bucket-search version of the order invariant, heap search with a positive
+  threshold from scratch, and prefix completeness for a proper prefix of the run; checked on every
+  generated case (exact Fractions).
 -/
 import PS.Model.Enum.HeapSearch
 import PS.Proofs.Enum.Heapq
 import PS.Proofs.Enum.HeapSearch
+import PS.Proofs.Enum.HeapInv
+import PS.Proofs.Enum.BucketOrder
+import PS.Model.Prob
+import PS.Proofs.Enum.HSHeaps
+import PS.Proofs.Enum.HSOrder
+import PS.Proofs.Enum.HSOrderCheck
+import PS.Proofs.Enum.HSSorted
+import PS.Proofs.Enum.HSPrologueTotal
 namespace PS.C03HS
 open PS PS.G PS.HS
 
@@ -67,5 +93,232 @@ example : (1 / 2 : Rat) * (1 / 4) * (1 / 8) ≤ (1 / 2) * (1 / 2) * (1 / 8) :=
 
 /-- `Bucket(size).add_prob_uniform(p)` puts probability 1/2 of 3 buckets in the middle one -/
 example : Bucket.ofProb 3 (1 / 2) = [0, 1, 0] := by decide +kernel
+
+/-! ### heapq re-establishes its invariant (gap A) -/
+
+/-- the two orders used are strict weak orders (`<` asymmetric, `not <` transitive) -/
+theorem C03_HS_prob_weakOrder (t : Rat) : Heapq.WeakOrder (probOps t).lt := by
+  constructor
+  · intro a b h
+    simp only [probOps, decide_eq_true_eq, decide_eq_false_iff_not, Rat.not_lt] at h ⊢
+    exact Rat.le_of_lt h
+  · intro a b c h1 h2
+    simp only [probOps, decide_eq_false_iff_not, Rat.not_lt] at h1 h2 ⊢
+    exact Rat.le_trans h2 h1
+
+/-- `Bucket.__lt__` is a strict weak order on the tuples of one size (all the tuples of a run have
+    length `size`); on tuples of different lengths `not <` is not transitive: `[1]`, `[]`, `[0]` -/
+theorem C03_HS_bucket_weakOrder (n : Nat) :
+    Heapq.WeakOrder (fun a b : { b : Bucket // b.length = n } => Bucket.lt a.1 b.1) := Bucket.weakOrder n
+
+example : Bucket.lt [] [1] = false ∧ Bucket.lt [0] [] = false ∧ Bucket.lt [0] [1] = true := by decide
+
+/-- the order of heap elements (`HeapElement.__lt__` compares the priorities only) inherits it -/
+theorem C03_HS_ltE_weakOrder {π : Type} (ops : Prio π) (w : Heapq.WeakOrder ops.lt) :
+    Heapq.WeakOrder (ltE ops) :=
+  ⟨fun a b h => w.asymm a.1 b.1 h, fun a b c h1 h2 => w.ntrans a.1 b.1 c.1 h1 h2⟩
+
+/-- **`heappush` re-establishes the heap invariant** (literal port of `_siftdown`), for every order
+    whose `<` is asymmetric and whose `not <` is transitive -/
+theorem C03_HS_heappush_inv {α : Type} (lt : α → α → Bool) (w : Heapq.WeakOrder lt) (h : List α) (x : α)
+    (hh : Heapq.IsHeap lt h) : Heapq.IsHeap lt (Heapq.push lt h x) := Heapq.push_isHeap w h x hh
+
+/-- **`heappop` re-establishes the heap invariant and returns a minimum** (literal port of
+    `_siftup` = bubble the smaller child up to a leaf, then `_siftdown`) -/
+theorem C03_HS_heappop_inv {α : Type} (lt : α → α → Bool) (w : Heapq.WeakOrder lt) (h : List α) (x : α)
+    (h' : List α) (hh : Heapq.IsHeap lt h) (hp : Heapq.pop lt h = some (x, h')) :
+    Heapq.IsHeap lt h' ∧ ∀ y ∈ h, lt y x = false := Heapq.pop_isHeap w h x h' hh hp
+
+/-- **heapsort**: popping the heap built by successive pushes of `l` until it is empty yields a
+    permutation of `l` in which no element is smaller than an earlier one -/
+theorem C03_HS_heap_sorted {α : Type} (lt : α → α → Bool) (w : Heapq.WeakOrder lt) (l : List α) :
+    (Heapq.drain lt l.length (Heapq.build lt l)).Perm l ∧
+    (Heapq.drain lt l.length (Heapq.build lt l)).Pairwise (fun a b => lt b a = false) := by
+  have hp := Heapq.build_perm lt l
+  obtain ⟨h1, h2⟩ := Heapq.drain_sorted w l.length (Heapq.build lt l) (Heapq.build_isHeap w l)
+    (by rw [hp.length_eq]; exact Nat.le_refl _)
+  exact ⟨h1.trans hp, h2⟩
+
+example : Heapq.drain (fun a b : Nat => decide (a < b)) 6 (Heapq.build (fun a b => decide (a < b)) [5, 1, 4, 1, 3, 2])
+    = [1, 1, 2, 3, 4, 5] := by decide
+
+example : Heapq.WeakOrder (fun a b : Nat => decide (a < b)) :=
+  ⟨fun a b h => by simp only [decide_eq_true_eq, decide_eq_false_iff_not] at h ⊢; omega,
+   fun a b c h1 h2 => by simp only [decide_eq_false_iff_not] at h1 h2 ⊢; omega⟩
+
+example : Heapq.pop (fun a b : Nat => decide (a < b)) [1, 3, 2, 7, 4] = some (1, [2, 3, 4, 7]) := by decide
+
+/-! ### the machine: every heap is valid in every reachable state (unconditional) -/
+section Heaps
+variable {S T π : Type} [DecidableEq S] [DecidableEq T]
+
+/-- `HS.HInv E s`: every `heaps[nt]` satisfies heapq's invariant.  It holds initially and every
+    `next(generator)` keeps it — any grammar, any filter, any strict weak order of priorities -/
+theorem C03_HS_heaps_valid (E : Env S T π) (w : Heapq.WeakOrder E.ops.lt) (fuel : Nat) :
+    HInv E (Gen.new E.G : Gen S T π).st ∧
+    ∀ (g g' : Gen S T π) (r : Option Prog), HInv E g.st → HS.next E fuel g = some (g', r) → HInv E g'.st :=
+  ⟨hinv_new E, fun g g' r hg h => next_hinv E w fuel g g' r hg h⟩
+
+/-- hence every pop made by `query` returns an element of minimal priority (heap search: of maximal
+    probability) of its heap, and leaves a valid heap -/
+theorem C03_HS_pop_max (E : Env S T π) (w : Heapq.WeakOrder E.ops.lt) (s : St S T π) (hs : HInv E s)
+    (nt : NT S T) (e : π × Prog) (h' : List (π × Prog))
+    (hp : Heapq.pop (ltE E.ops) (s.heapOf nt) = some (e, h')) :
+    (∀ y ∈ s.heapOf nt, E.ops.lt y.1 e.1 = false) ∧ HInv E (s.setHeap nt h') :=
+  ⟨(Heapq.pop_isHeap (ltE_weakOrder E.ops w) _ _ _ (hs nt) hp).2, hs.pop w nt e h' hp⟩
+end Heaps
+
+/-! ### the order of the yielded sequence (acyclic context-free grammars, heap search, no filter) -/
+section Order
+variable {S : Type} [DecidableEq S]
+
+/-- **the order invariant is preserved by `query`**: `HS.OInv E H0 s` says, for every non-terminal,
+    (I4) no heap element is more probable than a program already popped, a recorded successor is not
+    more probable than its predecessor, (I1) the arguments of every program ever pushed were popped
+    for their non-terminals — or the enumeration of that non-terminal has not started and the
+    argument is what its initial heap `H0` pops first.  Under `HS.OrdHyp` (priorities = probabilities,
+    non-negative weights, the grammar is NOT recursive: `rank` decreases from a non-terminal to the
+    non-terminals of its rules) and the precondition (I5) "the key was popped for the non-terminal
+    (or is its first pop)", `query` keeps it.
+    On recursive grammars this is false (`finding_C03_HS_reentrant`). -/
+theorem C03_HS_order_step (E : Env S Unit Rat) (rank : NT S Unit → Nat) (H : OrdHyp E rank)
+    (H0 : NT S Unit → List (Rat × Prog)) (n : Nat)
+    (s s' : St S Unit Rat) (nt : NT S Unit) (p r : Option Prog)
+    (hs : SInv E s) (hn : NInv s) (hh : HInv E s) (ho : OInv E H0 s)
+    (hp : ∀ x, p = some x → (∃ k, AList.lookup k (s.succOf nt) = some x) ∨ (s.succOf nt = [] ∧ FP E H0 nt x))
+    (h : query E n s nt p = some (s', r)) : OInv E H0 s' :=
+  (big_order H (big_of_query E h) hs hn hh ho trivial trivial hp).1
+
+/-- **tie-breaking of heapq**: `heappush` replaces the root only by a strictly smaller element, so
+    the first pop of a heap built by pushes is the first minimum in push order -/
+theorem C03_HS_heappush_root {α : Type} (lt : α → α → Bool) (w : Heapq.WeakOrder lt) (h : List α) (x : α)
+    (hh : Heapq.IsHeap lt h) : (Heapq.push lt h x).head? = Heapq.bestStep lt h.head? x :=
+  Heapq.push_head w h x hh
+
+example : (Heapq.push (fun a b : Nat × Nat => decide (a.1 < b.1)) [(1, 0), (3, 0)] (1, 7)).head? = some (1, 0) := by
+  decide
+
+/-- **the max-priority phase leaves tables in sync** (`HS.MaxOK`: `max_priority[(S, P)]` is `P` applied
+    to the current `max_priority[Si]`, `max_priority[S]` is the first best of them in rule order) and
+    `__init_heap__` then builds a state in which every argument of an initial program is the first
+    pop of its non-terminal (`HS.Base`) — acyclic grammar, no empty row, dict keys distinct -/
+theorem C03_HS_base (E : Env S Unit Rat) (rank : NT S Unit → Nat) (HI : InitHyp E rank)
+    (w : Heapq.WeakOrder E.ops.lt) (hthr : E.ops.thr = none) (hk : (AList.keys E.G.rules).Nodup) (fuel : Nat) :
+    ∀ s3, preHeaps E fuel (St.empty E.G) = some s3 → Base E s3 :=
+  preHeaps_base E rank HI w hthr hk fuel
+
+/-- **BEST-FIRST ORDER** of heap search (`HeapSearch`, threshold 0, no filter) on an ACYCLIC
+    context-free grammar: for every fuel and every number of steps the yielded probabilities
+    are non-increasing.  Hypotheses (all decidable on a literal grammar, see the example):
+    `OrdHyp` — priorities are the probabilities, weights non-negative, `rank` strictly decreases from
+    a non-terminal to the non-terminals of its rules; `InitHyp` — dict rows have distinct keys, same
+    acyclicity, no non-terminal with an empty row; the rule table has distinct keys.
+    Without acyclicity the statement is false (`finding_C03_HS_reentrant`). -/
+theorem C03_HS_sorted (E : Env S Unit Rat) (rank : NT S Unit → Nat) (H : OrdHyp E rank) (HI : InitHyp E rank)
+    (hthr : E.ops.thr = none) (hk : (AList.keys E.G.rules).Nodup) (hf : ∀ p, E.filter p = true)
+    (fuel k : Nat) (g' : Gen S Unit Rat) (out : List Prog) (b : Bool)
+    (h : take E fuel k (Gen.new E.G) [] = some (g', out, b)) :
+    out.Pairwise (fun p q => G.prob E.G E.W q E.G.start ≤ G.prob E.G E.W p E.G.start) :=
+  take_sorted E rank H HI hthr hk hf fuel k g' out b h
+
+/-- **every strictly more probable program was yielded before** (complete runs): when the generator
+    has stopped, a member `p` of the grammar that is strictly more probable than a yielded `q` occurs
+    before `q` in the output.  (For a proper prefix of the run the statement is not proved.) -/
+theorem C03_HS_more_probable_before (E : Env S Unit Rat) (rank : NT S Unit → Nat) (C : CompHyp E rank)
+    (fuel k : Nat) (g' : Gen S Unit Rat) (l1 l2 : List Prog) (q p : Prog)
+    (h : take E fuel k (Gen.new E.G) [] = some (g', l1 ++ q :: l2, true))
+    (hp : contains E.G p = true) (hlt : G.prob E.G E.W q E.G.start < G.prob E.G E.W p E.G.start) : p ∈ l1 := by
+  have hsorted := C03_HS_sorted E rank C.ord C.init C.thr C.keys C.nofilter fuel k g' _ true h
+  have hmem : p ∈ l1 ++ q :: l2 := by
+    rw [contains_eq_gen] at hp
+    exact take_complete E rank C fuel k g' _ h p hp
+  rcases List.mem_append.mp hmem with h1 | h2
+  · exact h1
+  · exfalso
+    have hpw := (List.pairwise_append.mp hsorted).2.1
+    rcases List.mem_cons.mp h2 with rfl | h3
+    · exact absurd hlt (Rat.lt_irrefl)
+    · have := (List.pairwise_cons.mp hpw).1 p h3
+      exact absurd hlt (Rat.not_lt.mpr this)
+
+/-- the same from a hypothesis on the state produced by the prologue only (any threshold; kept for
+    grammars outside `InitHyp`): the yielded probabilities are non-increasing PROVIDED the state produced
+    by the prologue of `generator()` satisfies the order invariant for some reference heaps. -/
+theorem C03_HS_sorted_partial (E : Env S Unit Rat) (rank : NT S Unit → Nat) (H : OrdHyp E rank)
+    (hnd : RowsNodup E.G) (hf : ∀ p, E.filter p = true) (fuel k : Nat)
+    (hpro : ∀ s0, prologue E fuel (St.empty E.G) = some s0 → ∃ H0, OInv E H0 s0)
+    (g' : Gen S Unit Rat) (out : List Prog) (b : Bool)
+    (h : take E fuel k (Gen.new E.G) [] = some (g', out, b)) :
+    out.Pairwise (fun p q => G.prob E.G E.W q E.G.start ≤ G.prob E.G E.W p E.G.start) :=
+  take_sorted_of_pro H hnd hf fuel k hpro g' out b h
+
+/-! non-vacuity: `S0 → 1 | + S1 S1`, `S1 → 1 | x` -/
+def oInt : Ty := .base "int"
+def oOne : Sym := Sym.prim "1" oInt
+def oX : Sym := Sym.var 0 oInt
+def oPlus : Sym := Sym.prim "+" (.arrow oInt (.arrow oInt oInt))
+def oG : TT Nat Unit := ⟨(oInt, (0, ())), [((oInt, (0, ())), [(oOne, ([], ())), (oPlus, ([(oInt, 1), (oInt, 1)], ()))]),
+                                          ((oInt, (1, ())), [(oOne, ([], ())), (oX, ([], ()))])]⟩
+def oW : AList (NT Nat Unit) (AList Sym Rat) :=
+  [((oInt, (0, ())), [(oOne, 1/2), (oPlus, 1/2)]), ((oInt, (1, ())), [(oOne, 1/4), (oX, 3/4)])]
+def oE : Env Nat Unit Rat := { G := oG, W := oW, ops := probOps 0, filter := fun _ => true }
+def oRank (nt : NT Nat Unit) : Nat := 1 - nt.2.1
+
+theorem oHyp : OrdHyp oE oRank :=
+  ⟨⟨0, rfl⟩, wnonneg_of_all oW (by decide +kernel), acyclic_of_all oG oRank (by decide)⟩
+
+theorem oInit : InitHyp oE oRank :=
+  ⟨rowsNodup_of_all oG (by decide), acyclic_of_all oG oRank (by decide), by
+    intro nt rs h
+    have hm := AList.lookup_some_mem h
+    simp only [oE, oG, List.mem_cons, Prod.mk.injEq, List.not_mem_nil, or_false] at hm
+    rcases hm with ⟨_, rfl⟩ | ⟨_, rfl⟩ <;> simp⟩
+
+/-- the state produced by the prologue satisfies the order invariant (kernel evaluation) -/
+theorem oPro : ∀ s0, prologue oE 50 (St.empty oG) = some s0 → ∃ H0, OInv oE H0 s0 := by
+  have h : (prologue oE 50 (St.empty oG)).all (oinvB oE) = true := by decide +kernel
+  intro s0 hs0
+  rw [hs0] at h
+  exact ⟨s0.heapOf, oinv_of_oinvB oE s0 h⟩
+
+example : ∀ g' out b, take oE 50 10 (Gen.new oG) [] = some (g', out, b) →
+    out.Pairwise (fun p q => G.prob oG oW q oG.start ≤ G.prob oG oW p oG.start) :=
+  fun g' out b h => C03_HS_sorted oE oRank oHyp oInit rfl (by decide) (fun _ => rfl) 50 10 g' out b h
+
+example : ∀ g' out b, take oE 50 10 (Gen.new oG) [] = some (g', out, b) →
+    out.Pairwise (fun p q => G.prob oG oW q oG.start ≤ G.prob oG oW p oG.start) :=
+  fun g' out b h => C03_HS_sorted_partial oE oRank oHyp (rowsNodup_of_all oG (by decide)) (fun _ => rfl) 50 10
+    oPro g' out b h
+
+example : (take oE 50 10 (Gen.new oG) []).map (fun r => r.2.1.map (fun p => G.prob oG oW p oG.start)) =
+    some [1/2, 9/32, 3/32, 3/32, 1/32] := by decide +kernel
+end Order
+
+/-! ### finding: best-first order is violated on recursive grammars (re-entrant `query`) -/
+section Reentrant
+def rInt : Ty := .base "t"
+def rF : Sym := Sym.prim "F" (.arrow rInt (.arrow rInt rInt))
+def rg : Sym := Sym.prim "g" (.arrow rInt rInt)
+def rb : Sym := Sym.prim "b" rInt
+def rc : Sym := Sym.prim "c" rInt
+/-- `CFG.infinite(DSL{F : t1 -> t1 -> t0, b : t0, g : t0 -> t1, c : t1}, t0, n_gram=1)`:
+    `S0 → b | F S1 S1`, `S1 → c | g S0` -/
+def rG : TT Nat Unit := ⟨(rInt, (0, ())), [((rInt, (0, ())), [(rb, ([], ())), (rF, ([(rInt, 1), (rInt, 1)], ()))]),
+                                          ((rInt, (1, ())), [(rc, ([], ())), (rg, ([(rInt, 0)], ()))])]⟩
+def rW : AList (NT Nat Unit) (AList Sym Rat) :=
+  [((rInt, (0, ())), [(rb, 1/64), (rF, 63/64)]), ((rInt, (1, ())), [(rc, 1/2), (rg, 1/2)])]
+def rE : Env Nat Unit Rat := { G := rG, W := rW, ops := probOps 0, filter := fun _ => true }
+def rFcc : Prog := .node rF [.node rc [], .node rc []]
+
+/-- (finding C03-F3) heap search yields `(F c c)` (63/256), then `b` (1/64) **before** `(F (g (F c c)) c)` (3969/65536 > 1/64):
+    while `__add_successors__((F c c), S0)` is still running (the successors of `(F c c)` are not pushed
+    yet), the nested `query(S1, c)` pops `(g (F c c))`, whose `__add_successors__` calls
+    `query(S0, (F c c))`, which pops the heap of `S0` too early.  Same output on the implementation. -/
+theorem finding_C03_HS_reentrant :
+    (take rE 200 3 (Gen.new rG) []).map (fun r => r.2.1.map (fun p => (p, G.prob rG rW p rG.start))) =
+      some [(rFcc, 63/256), (.node rb [], 1/64), (.node rF [.node rg [rFcc], .node rc []], 3969/65536)] ∧
+    ((1 : Rat)/64 < 3969/65536) := by
+  decide +kernel
+end Reentrant
 
 end PS.C03HS
